@@ -53,24 +53,28 @@ def recP : P (PredRecord Float × Option (Cache Key Float)) := do
 
 inductive Kind | ice | bev | phev
 
-/-- vehicles are built as the configuration builders do: `starting_battery_energy = battery_capacity` -/
-def vehicleP : P (Kind × Vehicle Float × Caches Key Float) := do
+/-- a vehicle: record(s), capacity, unit.  The last component says whether the configuration builders
+accept it (`Battery.ofConfig`: a capacity that is not positive is a configuration error); constructed
+in-process (`BEV::new` / `PHEV::new`) any capacity is taken. -/
+def vehicleP : P (Kind × Vehicle Float × Caches Key Float × Bool) := do
   let k ← next
   match k with
   | "ice" => do
     let (r, c) ← recP
-    pure (.ice, .ice r, { main := c, sustain := none })
+    pure (.ice, .ice r, { main := c, sustain := none }, true)
   | "bev" => do
     let (r, c) ← recP
     let cap ← float
     let bu ← unitP EnergyUnit.ofName?
-    pure (.bev, .bev r (Battery.ofConfig cap bu), { main := c, sustain := none })
+    let ok := match Battery.ofConfig cap bu with | .ok _ => true | .error _ => false
+    pure (.bev, .bev r (Battery.unchecked cap bu), { main := c, sustain := none }, ok)
   | "phev" => do
     let (rs, cs) ← recP
     let (rd, cd) ← recP
     let cap ← float
     let bu ← unitP EnergyUnit.ofName?
-    pure (.phev, .phev rs rd (Battery.ofConfig cap bu), { main := cd, sustain := cs })
+    let ok := match Battery.ofConfig cap bu with | .ok _ => true | .error _ => false
+    pure (.phev, .phev rs rd (Battery.unchecked cap bu), { main := cd, sustain := cs }, ok)
   | _ => failure
 
 def queryP : P (SocQuery Float) := do
@@ -132,8 +136,11 @@ def routeCase : P String := do
     if cfg then
       let _ ← next
       let malformed ← bool
-      let lib : List (Nat × Kind × Vehicle Float × Caches Key Float) ←
+      let lib4 : List (Nat × Kind × Vehicle Float × Caches Key Float × Bool) ←
         listOf (do let id ← nat; let v ← vehicleP; pure (id, v))
+      let capsOk := lib4.all fun (p : Nat × Kind × Vehicle Float × Caches Key Float × Bool) => p.2.2.2.2
+      let lib : List (Nat × Kind × Vehicle Float × Caches Key Float) :=
+        lib4.map fun (p : Nat × Kind × Vehicle Float × Caches Key Float × Bool) => (p.1, p.2.1, p.2.2.1, p.2.2.2.1)
       let nm ← nameP
       let q ← queryP
       let vres := selectVehicle (lib.map fun (p : Nat × Kind × Vehicle Float × Caches Key Float) => (p.1, p.2.2.1)) nm q
@@ -149,9 +156,9 @@ def routeCase : P String := do
         | some (k, _, c) => (k, c)
         | none => (Kind.ice, ({ main := none, sustain := none } : Caches Key Float))
       let cachesOk := lib.all fun (p : Nat × Kind × Vehicle Float × Caches Key Float) => cachesConfigOk p.2.2.2
-      pure (kind, vres, caches, built, malformed || !cachesOk)
+      pure (kind, vres, caches, built, malformed || !cachesOk || !capsOk)
     else
-      let (kind, v0, caches) ← vehicleP
+      let (kind, v0, caches, _) ← vehicleP
       let q ← queryP
       pure (kind, v0.updateFromQuery q, caches, "", false))
   -- service
